@@ -397,6 +397,23 @@ def tokenize(s, conc):
 
 # ------------------------------------------------------------------ driving the real code
 
+def emitted(w):
+    """the warnings of a catch_warnings(record=True) list that the calls under observation emitted:
+    a ResourceWarning is raised by the garbage collector for whatever object it happens to finalize
+    (catch_warnings is process-wide, other harness threads run meanwhile), and only warnings attributed
+    to the code under test or to its caller (this file: stacklevel 2) count"""
+    here = os.path.realpath(__file__)
+    repo = os.path.realpath(os.environ.get("VERIF_REPO", "/repo")) + os.sep
+    out = []
+    for x in w:
+        if issubclass(x.category, ResourceWarning):
+            continue
+        f = os.path.realpath(x.filename) if x.filename else ""
+        if f == here or f.startswith(repo):
+            out.append(x)
+    return out
+
+
 def run_real(r_py):
     """str -> parse_relations -> str on the real class.  Exceptions and warnings are observations."""
     from debian.deb822 import PkgRelation
@@ -412,7 +429,7 @@ def run_real(r_py):
             out["s2"] = PkgRelation.str(out["p"])
         except Exception as e:       # noqa: BLE001 -- observation
             out["exc"] = "%s in %s: %s" % (type(e).__name__, stage, e)
-    out["warn"] = ["%s: %s" % (x.category.__name__, x.message) for x in w]
+    out["warn"] = ["%s: %s" % (x.category.__name__, x.message) for x in emitted(w)]
     return out
 
 
@@ -516,7 +533,7 @@ def run_history(r_py, o, with_copy=True, snap=None):
                 latest = PkgRelation.parse_relations(o["s"])
                 # (snapshots are taken now: the structure is edited in the next round)
                 h["re"].append({"eq": latest == r_py, "repr": repr(latest), "s": PkgRelation.str(latest),
-                                "warn": ["%s: %s" % (x.category.__name__, x.message) for x in w],
+                                "warn": ["%s: %s" % (x.category.__name__, x.message) for x in emitted(w)],
                                 "abs": snap(latest) if snap else None})
     except Exception as e:       # noqa: BLE001 -- observation
         h["exc"] = "%s in %s: %s" % (type(e).__name__, stage, e)
@@ -578,6 +595,7 @@ def deb822_path(ctx, s, r_py):
             ctx.drift("Packages(...).relations differs from parse_relations for %r" % s)
         if got2["build-depends"] != r_py:
             ctx.drift("Sources(...).relations differs from parse_relations for %r" % s)
+        w = emitted(w)
         if w:
             ctx.drift("relations property warned for %r: %s" % (s, w[0].message))
     except Exception as e:       # noqa: BLE001
@@ -611,7 +629,9 @@ def check_case(ctx, rel_abs, codes, conc, diag, with_copy=True):
 
 def cfg_constants(name):
     out = {}
-    for line in open(os.path.join(core.SPEC, name)):
+    with open(os.path.join(core.SPEC, name)) as f:
+        lines = f.readlines()
+    for line in lines:
         m = re.match(r"^\s+(\w+) = (.+)$", line)
         if m:
             out[m.group(1)] = m.group(2).strip()
@@ -663,7 +683,8 @@ def follow_lines(workdir, running):
 
 def spec_negative_controls(ctx):
     """the invariants are not vacuous: each switch to the buggy design must make TLC report it"""
-    base = open(os.path.join(core.SPEC, "MC_PkgRelation_neg.cfg")).read()
+    with open(os.path.join(core.SPEC, "MC_PkgRelation_neg.cfg")) as f:
+        base = f.read()
     done = []
     for const, inv in NEG_CONTROLS:
         cfg = base.replace("%s = FALSE" % const, "%s = TRUE" % const)
@@ -675,7 +696,8 @@ def spec_negative_controls(ctx):
         done.append("%s -> %s" % (const, inv))
     # the history model: a memo layer in front of the reference parser is invisible unless its results
     # share nested lists with it
-    base = open(os.path.join(core.SPEC, "MC_PkgRelationMemo.cfg")).read()
+    with open(os.path.join(core.SPEC, "MC_PkgRelationMemo.cfg")) as f:
+        base = f.read()
     r = ctx.tlc("PkgRelationMemo", "MC_PkgRelationMemo.cfg", workers=1, java_opts=["-XX:ParallelGCThreads=2"])
     if r.violated:
         raise core.MachineryError("specification PkgRelationMemo violates %s\n%s" % (r.violated, r.tail))
@@ -1010,6 +1032,7 @@ def record_probe(rng, r_py):
             exc = "MalformedResult"
         except Exception as e:       # noqa: BLE001 -- observation
             exc = type(e).__name__
+    w = emitted(w)
     trace = {"kind": "probe", "r": [], "t": tokenize(s, conc), "p": p_abs, "warn": bool(w), "exc": exc, "t2": [], "same": True}
     meta = {"kind": "probe", "string": s, "observed": {"parsed": repr(p), "warnings": [str(x.message) for x in w],
                                                        "exception": exc, "second_string": None}}
